@@ -159,6 +159,13 @@ func init() {
 		seen := map[string]bool{}
 		type replayKey struct{ der []byte; cfg, sts, why string }
 		var replays []replayKey
+		type retainedResult struct {
+			r       *lint.LintResult
+			n       *big.Int
+			der     []byte
+			details string
+		}
+		var retained []retainedResult
 		for ki, k := range keys {
 			tick()
 			// the model's Fermat loop costs one 2048-bit integer square root per round inside Coq: keep the default
@@ -211,6 +218,7 @@ func init() {
 			}
 			// Fermat details: any reported factorisation multiplies back
 			if r := rs.Results["e_rsa_fermat_factorization"]; r != nil && r.Status == lint.Error {
+				retained = append(retained, retainedResult{r, new(big.Int).Set(pk.N), der, r.Details})
 				var ps, qs string
 				if _, e := fmt.Sscanf(afterStr(r.Details, "factored into p: "), "%s q: %s", &ps, &qs); e == nil {
 					p, _ := new(big.Int).SetString(trimSemi(ps), 10)
@@ -221,6 +229,25 @@ func init() {
 				}
 			}
 		}
+		// a caller that keeps the result sets of a batch and reads them afterwards: every retained report still states
+		// its own certificate's factorisation (a result is a value, not a view of the lint's scratch space)
+		for _, rr := range retained {
+			var ps, qs string
+			bad := rr.r.Details != rr.details
+			if _, e := fmt.Sscanf(afterStr(rr.r.Details, "factored into p: "), "%s q: %s", &ps, &qs); e == nil {
+				p, _ := new(big.Int).SetString(trimSemi(ps), 10)
+				q, _ := new(big.Int).SetString(qs, 10)
+				if p == nil || q == nil || new(big.Int).Mul(p, q).Cmp(rr.n) != 0 {
+					bad = true
+				}
+			}
+			if bad {
+				out.Violate("C16|fermat-factors-wrong-when-read-later", "the factorisation in a result kept from earlier in the batch no longer multiplies back to its certificate's modulus once other certificates have been linted",
+					map[string]interface{}{"der": hexs(rr.der), "details_when_returned": rr.details}, rr.details, rr.r.Details)
+				break
+			}
+		}
+		out.Stats["fermat_results_retained"] = len(retained)
 		// the verdict is a function of the key alone: the same keys linted from several goroutines at once (each on its
 		// own parsed certificate, as bulk users do), in another order, give the same verdicts
 		{
